@@ -517,10 +517,30 @@ func isolationRun(spec string, model string, prexec, trap bool, dir string, case
 			panic(err)
 		}
 	}
+	// the machine every case has to start from, built WITHOUT the provider, snapshot or restore code: a new machine, the
+	// setup program loaded and run on it (if any), registers and statistics reset
+	ref := "ref-failed"
+	protect(func() {
+		rc, err := cfg.NewCpu()
+		if err != nil {
+			return
+		}
+		if prexec {
+			if _, _, err := rc.LoadAndRun(fa.bins["setup.a"]); err != nil {
+				return
+			}
+		}
+		rc.Reset()
+		ref = observe(spec, rc, trapAddr, trap)
+	})
 	starts := []string{}
 	fa.onAsm = func(name string) {
 		if name != "setup.a" {
-			starts = append(starts, observe(spec, ce.CurrentCpu, trapAddr, trap))
+			o := observe(spec, ce.CurrentCpu, trapAddr, trap)
+			if o != ref {
+				o = "differs-from-reference " + o
+			}
+			starts = append(starts, o)
 		}
 	}
 	results := []string{}
@@ -568,6 +588,10 @@ func isolationCase(r *rng.R, dir string) string {
 		s := "1"
 		if i >= len(starts) || len(soloStart) != 1 || starts[i] != soloStart[0] {
 			s = "0"
+		} else if strings.HasPrefix(starts[i], "differs-from-reference") {
+			// the same machine every time, but not the one the property names (pristine image, or the image the setup
+			// program left, with registers, cycle counter and statistics reset)
+			s = "R"
 		}
 		v := "1"
 		if i >= len(results) || len(soloRes) != 1 || results[i] != soloRes[0] {
